@@ -1708,15 +1708,24 @@ mod expression_parser {
     };
 
     let mut statements = Vec::new();
+    // The comments written before a `;` stay in place: they are carried in front of whatever comes
+    // next in the block (the next statement, the final expression or the closing brace).
+    let mut carried_comments: Vec<Comment> = Vec::new();
 
     loop {
       match parser.peek() {
         Token(_, TokenContent::Keyword(Keyword::Let)) => {
-          statements.push(parse_statement(parser));
+          let (statement, trailing_comments) =
+            parse_declaration_statement(parser, std::mem::take(&mut carried_comments));
+          statements.push(statement);
+          carried_comments = trailing_comments;
         }
         Token(_, TokenContent::Operator(TokenOp::RightBrace)) => {
           // Empty block - no final expression
-          let (end_loc, ending_comments) = parser.assert_and_consume_operator(TokenOp::RightBrace);
+          let (end_loc, mut ending_comments) =
+            parser.assert_and_consume_operator(TokenOp::RightBrace);
+          carried_comments.append(&mut ending_comments);
+          let ending_comments = carried_comments;
           let loc = start_loc.union(&end_loc);
           return expr::Block {
             common: expr::ExpressionCommon {
@@ -1736,11 +1745,12 @@ mod expression_parser {
         Token(_, TokenContent::Operator(TokenOp::Semicolon)) => {
           // Empty statement, skip it
           let (_, ending_comments) = parser.assert_and_consume_operator(TokenOp::Semicolon);
-          associated_comments.extend(ending_comments);
+          carried_comments.extend(ending_comments);
         }
         Token(loc, TokenContent::EndOfFile) => {
           // Unexpected end of file inside block
           parser.report(loc, "Expected: }, actual: EOF.".to_string());
+          associated_comments.append(&mut carried_comments);
           return expr::Block {
             common: expr::ExpressionCommon {
               loc: start_loc.union(&loc),
@@ -1756,13 +1766,16 @@ mod expression_parser {
         }
         _ => {
           // Try to parse as an expression statement: parse expression, expect semicolon
-          let expr = parse_expression(parser);
+          let expr = parse_expression_with_additional_preceding_comments(
+            parser,
+            std::mem::take(&mut carried_comments),
+          );
           let peeked_after_expr = parser.peek();
           if let Token(_, TokenContent::Operator(TokenOp::Semicolon)) = peeked_after_expr {
             // This is an expression statement
             let (_, ending_comments) = parser.assert_and_consume_operator(TokenOp::Semicolon);
             statements.push(expr::Statement::Expression(Box::new(expr)));
-            associated_comments.extend(ending_comments);
+            carried_comments = ending_comments;
           } else if let Token(end_loc, TokenContent::Operator(TokenOp::RightBrace)) =
             peeked_after_expr
           {
@@ -1814,7 +1827,18 @@ mod expression_parser {
   }
 
   pub(super) fn parse_statement(parser: &mut super::SourceParser) -> expr::Statement<()> {
-    let (start_loc, mut concrete_comments) = parser.assert_and_consume_keyword(Keyword::Let);
+    parse_declaration_statement(parser, Vec::new()).0
+  }
+
+  /// Parses `let .. = ..;`. `leading_comments` come in front of the statement's own comments; the
+  /// comments written before the `;` are returned: they belong in front of whatever follows.
+  fn parse_declaration_statement(
+    parser: &mut super::SourceParser,
+    leading_comments: Vec<Comment>,
+  ) -> (expr::Statement<()>, Vec<Comment>) {
+    let (start_loc, mut let_comments) = parser.assert_and_consume_keyword(Keyword::Let);
+    let mut concrete_comments = leading_comments;
+    concrete_comments.append(&mut let_comments);
     let pattern = super::pattern_parser::parse_matching_pattern(parser, Vec::new());
     let annotation = if let Token(_, TokenContent::Operator(TokenOp::Colon)) = parser.peek() {
       Some(super::type_parser::parse_annotation_with_colon(parser))
@@ -1825,17 +1849,19 @@ mod expression_parser {
     let (_, assign_comments) = parser.assert_and_consume_operator(TokenOp::Assign);
     let assigned_expression =
       Box::new(parse_expression_with_additional_preceding_comments(parser, assign_comments));
-    let (end_loc, mut additional_comments) = parser.assert_and_consume_operator(TokenOp::Semicolon);
-    concrete_comments.append(&mut additional_comments);
+    let (end_loc, trailing_comments) = parser.assert_and_consume_operator(TokenOp::Semicolon);
     let loc = start_loc.union(&end_loc);
     let associated_comments = parser.comments_store.create_comment_reference(concrete_comments);
-    expr::Statement::Declaration(Box::new(expr::DeclarationStatement {
-      loc,
-      associated_comments,
-      pattern,
-      annotation,
-      assigned_expression,
-    }))
+    (
+      expr::Statement::Declaration(Box::new(expr::DeclarationStatement {
+        loc,
+        associated_comments,
+        pattern,
+        annotation,
+        assigned_expression,
+      })),
+      trailing_comments,
+    )
   }
 }
 
